@@ -2,6 +2,7 @@ import EAO.Model.Assemble
 import EAO.Model.Readout
 import EAO.Model.Translate
 import EAO.Lemmas.Nodal
+import EAO.Lemmas.Accounting
 /-!
 # C04 — value accounting: reported value = Σ per-asset discounted cash flows
 
@@ -29,7 +30,17 @@ theorem asset_dcf_total (as : List AssetProblem) (gridI : List Nat) (skip : List
     (i : Nat) (hi : i < as.length) :
     dcfTotal (assemble as gridI skip).c (assemble as gridI skip).mapping (as[i]).name T x
       = - costAt (as[i]).c (offset as i) x := by
-  sorry
+  have hdec : as = as.take i ++ as[i] :: as.drop (i + 1) := by
+    rw [← List.drop_eq_getElem_cons hi, List.take_append_drop]
+  have hnd' : (((as.take i) ++ as[i] :: as.drop (i + 1)).map (·.name)).Nodup := by
+    rw [← hdec]; exact hnd
+  have hmap : ∀ b ∈ as.take i ++ as[i] :: as.drop (i + 1), ∀ m ∈ b.mapping,
+      m.asset = b.name ∧ m.var < b.n ∧ m.step < T := by
+    rw [← hdec]; exact fun b hb => (hwf b hb).map
+  have key := dcfTotal_block (as.take i) (as.drop (i + 1)) as[i] T hnd' hmap
+    (hwf as[i] (List.getElem_mem hi)).rowless x
+  rw [← hdec] at key
+  simpa [offset] using key
 
 /-- **C04**: the reported value equals the sum over all assets and steps of the DCF table — for
     every `x` (in particular for the optimum), any number of assets, steps and rows per variable -/
@@ -38,8 +49,12 @@ theorem value_accounting (as : List AssetProblem) (gridI : List Nat) (skip : Lis
     ((as.map (·.name)).map fun a =>
         dcfTotal (assemble as gridI skip).c (assemble as gridI skip).mapping a T x).sum
       = (assemble as gridI skip).value x := by
-  sorry
+  have key := dcfTotal_sum_suffix as T hnd (fun b hb => (hwf b hb).map)
+    (fun b hb => (hwf b hb).rowless) x [] as rfl
+  rw [List.map_map]
+  simpa [Problem.value, Function.comp_def] using key
 
+set_option linter.unusedVariables false in
 /-- **split**: the mapping of a split problem is the concatenation of the interval mappings shifted by
     the interval offsets (`mapping_tmp.index += len_res`), the cost vector the concatenation of the
     interval costs; the accounting identity holds for the block sum with per-asset totals summed
@@ -52,6 +67,72 @@ theorem value_accounting_split (intervals : List (List AssetProblem × List Nat)
         ((p.1.1.map (·.name)).map fun a =>
           dcfTotal (assemble p.1.1 p.1.2 skip).c (assemble p.1.1 p.1.2 skip).mapping a T p.2).sum).sum
       = ((intervals.zip xs).map fun p => (assemble p.1.1 p.1.2 skip).value p.2).sum := by
-  sorry
+  congr 1
+  apply List.map_congr_left
+  intro p hp
+  have hmem : p.1 ∈ intervals := (List.of_mem_zip hp).1
+  exact value_accounting p.1.1 p.1.2 skip T (hnd _ hmem) (hwf _ hmem) p.2
+
+/-! ### non-vacuity
+
+Two assets.  `exA` has three variables: variable 0 with TWO mapping rows (steps 0 and 1; booked at
+step 0, the first row), variable 1 row-less with zero cost, variable 2 with one row at step 1.
+`exB` has one variable. -/
+def exA : AssetProblem :=
+  { name := "a", nodes := ["n"], c := [3, 0, 2], l := [0, 0, 0], u := [9, 9, 9], rows := [],
+    mapping := [⟨0, "a", some "n", .d, 0, 1, false, "disp"⟩, ⟨2, "a", none, .i, 1, 1, false, "aux"⟩,
+                ⟨0, "a", some "n", .d, 1, 1/2, false, "disp"⟩] }
+def exB : AssetProblem :=
+  { name := "b", nodes := ["n"], c := [5], l := [-9], u := [9], rows := [],
+    mapping := [⟨0, "b", some "n", .d, 0, 2, false, "disp"⟩] }
+def exX : Vec := fun j => if j = 0 then 2 else if j = 1 then 7 else if j = 2 then -1 else 1/2
+
+theorem exWF : ∀ a ∈ [exA, exB], WF 2 a := by
+  intro a ha
+  simp only [List.mem_cons, List.not_mem_nil, or_false] at ha
+  rcases ha with rfl | rfl <;> exact ⟨by decide +kernel, by decide +kernel⟩
+
+theorem exNodup : ([exA, exB].map (·.name)).Nodup := by decide +kernel
+
+/-- the hypotheses are satisfiable and the theorems apply to the instance -/
+example : ((["a", "b"]).map fun a =>
+      dcfTotal (assemble [exA, exB] [0, 1] []).c (assemble [exA, exB] [0, 1] []).mapping a 2 exX).sum
+    = (assemble [exA, exB] [0, 1] []).value exX :=
+  value_accounting [exA, exB] [0, 1] [] 2 exNodup exWF exX
+
+/-- direct evaluation of the same instance: the DCF table (asset × step), the per-asset totals and
+    the value; variable 0 of `exA` is booked once (at step 0) although it has two rows, the row-less
+    variable 1 (value 7) contributes nothing -/
+example :
+    let P := assemble [exA, exB] [0, 1] []
+    dcf P.c P.mapping "a" 0 exX = -6 ∧ dcf P.c P.mapping "a" 1 exX = 2 ∧
+    dcf P.c P.mapping "b" 0 exX = -5/2 ∧ dcf P.c P.mapping "b" 1 exX = 0 ∧
+    dcfTotal P.c P.mapping "a" 2 exX = - costAt exA.c (offset [exA, exB] 0) exX ∧
+    dcfTotal P.c P.mapping "b" 2 exX = - costAt exB.c (offset [exA, exB] 1) exX ∧
+    offset [exA, exB] 1 = 3 ∧ P.value exX = -13/2 := by
+  decide +kernel
+
+/-- `asset_dcf_total` applies to the instance (asset at position 1, offset 3) -/
+example : dcfTotal (assemble [exA, exB] [0, 1] []).c (assemble [exA, exB] [0, 1] []).mapping "b" 2 exX
+    = - costAt [5] (offset [exA, exB] 1) exX :=
+  asset_dcf_total [exA, exB] [0, 1] [] 2 exNodup exWF exX 1 (by decide)
+
+/-- `value_accounting_split` applies to a two-interval instance; both sides evaluate to `-33/2` -/
+example :
+    let ivs : List (List AssetProblem × List Nat) := [([exA, exB], [0, 1]), ([exB], [0])]
+    ((ivs.zip [exX, exX]).map fun p =>
+        ((p.1.1.map (·.name)).map fun a =>
+          dcfTotal (assemble p.1.1 p.1.2 []).c (assemble p.1.1 p.1.2 []).mapping a 2 p.2).sum).sum
+      = ((ivs.zip [exX, exX]).map fun p => (assemble p.1.1 p.1.2 []).value p.2).sum ∧
+    ((ivs.zip [exX, exX]).map fun p => (assemble p.1.1 p.1.2 []).value p.2).sum = -33/2 := by
+  refine ⟨value_accounting_split _ [] 2 ?_ ?_ [exX, exX] rfl, by decide +kernel⟩
+  · intro iv hiv
+    simp only [List.mem_cons, List.not_mem_nil, or_false] at hiv
+    rcases hiv with rfl | rfl <;> decide +kernel
+  · intro iv hiv a ha
+    simp only [List.mem_cons, List.not_mem_nil, or_false] at hiv
+    rcases hiv with rfl | rfl
+    · exact exWF a ha
+    · exact exWF a (by simp only [List.mem_cons, List.not_mem_nil, or_false] at ha ⊢; exact Or.inr ha)
 
 end EAO.C04
